@@ -12,6 +12,10 @@ from .kernel import norm
 from .roles import get_roles, HASHMAP_REMOVE, DASHMAP_REMOVE
 from .symex import fmt, subterms, PathLimit
 
+
+def has_field(t, names):
+    return any(isinstance(x, tuple) and x and x[0] == "fld" and x[2] in names for x in subterms(t))
+
 ADD_OPS = ('Add', 'saturating_add', 'wrapping_add', 'AddUnchecked')
 SUB_OPS = ('Sub', 'saturating_sub', 'wrapping_sub', 'SubUnchecked')
 
@@ -481,6 +485,57 @@ def rule_flow_admit_sums_unsync(ctx):
 SYNC_INNER = 'sync::base_cache::Inner'
 
 
+def _released_weight_booked(ctx, nid):
+    """The remove role `nid` returns the weight to release: at every call site the result is handed to a function that, for Some(w), subtracts
+    1 from the entry counter and w from the weighted size of the run counters."""
+    key = ('released-booked', nid)
+    if key in ctx.cache:
+        return ctx.cache[key]
+    prog = ctx.prog
+    ok, sites = True, 0
+
+    def books(fn):
+        if fn not in prog.bodies:
+            return False
+        good = False
+        for q in _paths(ctx, fn):
+            kws, ws = final_writes(q, 'weighted_size')
+            kec, ec = final_writes(q, 'entry_count')
+            if ws is None and ec is None:
+                continue
+            fws, fec = (lin(ws) if ws is not None else []), (lin(ec) if ec is not None else [])
+            if has_atom(fec, -1, is_one) and any(s == -1 and any(isinstance(x, tuple) and x and x[0] in ('param', 'payload') for x in subterms(a)) for s, a in fws):
+                good = True
+            else:
+                return False
+        return good
+    for c_ in sorted({(prog.bodies[x].root or x) if prog.bodies[x].kind == 'closure' else x for x in prog.callers().get(nid, ())}):
+        try:
+            ps = [q for q in ctx.symex(inline_depth=3, loop_visits=2, inline_pred=lambda n_, bb, d, _n=nid: False if n_ == _n else None).run(c_) if not q.diverged]
+        except PathLimit:
+            ctx.cache[key] = False
+            return False
+        for q in ps:
+            for i, e in enumerate(q.events):
+                if e[0] == 'call' and e[1] == nid:
+                    sites += 1
+                    res = e[6] if len(e) > 6 else ('call', e[1], e[2])
+                    used = any(ev[0] == 'call' and ev[1] in prog.bodies and any(any(y == res for y in subterms(a)) for a in ev[2]) and books(ev[1]) for ev in q.events[i + 1:])
+                    if not used:
+                        # the booking helper was stepped into: its writes are on this path
+                        later = q.events[i + 1:]
+                        w_ok = any(ev[0] == 'write' and has_field(ev[1], ('weighted_size',)) and any(y == res for y in subterms(ev[2])) and
+                                   any(s_ == -1 for s_, a_ in lin(ev[2])) for ev in later)
+                        c_ok = any(ev[0] == 'write' and has_field(ev[1], ('entry_count',)) and has_atom(lin(ev[2]), -1, is_one) for ev in later)
+                        # (on the paths where the role returned None there is nothing to book)
+                        none_res = any(c == ('discr', res) and v == 0 for c, v in q.conds)
+                        used = (w_ok and c_ok) or none_res
+                    if not used:
+                        ok = False
+    ctx.cache[key] = ok and sites > 0
+    return ctx.cache[key]
+
+
 def _remove_role_summary(ctx, nid):
     """Is `nid` a remove-role function: (entry, counters): if entry admitted -> clear flag, counters -= (1, weight),
     unlink ao + wo; else clear node pointers.  Returns (is_role, problems)."""
@@ -502,10 +557,17 @@ def _remove_role_summary(ctx, nid):
             kec, ec = final_writes(p, 'entry_count')
             fws = lin(ws) if ws is not None else []
             fec = lin(ec) if ec is not None else []
-            if not has_atom(fec, -1, is_one):
-                probs.append('admitted path does not subtract 1 from the entry count')
-            if not any(s == -1 and 'policy_weight' in fmt(a) for s, a in fws):
-                probs.append('admitted path does not subtract the entry weight')
+            returns_weight = isinstance(p.ret, tuple) and p.ret and ((p.ret[0] == 'aggr' and p.ret[2] == 'Some' and 'policy_weight' in fmt(p.ret)) or
+                                                                    (p.ret[0] == 'call' and 'policy_weight' in fmt(p.ret)))
+            if returns_weight and ws is None and ec is None:
+                # the released weight is handed back to the caller: that every caller subtracts (1, weight) for it is judged at the call sites
+                if not _released_weight_booked(ctx, nid):
+                    probs.append('admitted path returns the weight to release but a caller does not subtract it (and 1) from the run counters')
+            else:
+                if not has_atom(fec, -1, is_one):
+                    probs.append('admitted path does not subtract 1 from the entry count')
+                if not any(s == -1 and 'policy_weight' in fmt(a) for s, a in fws):
+                    probs.append('admitted path does not subtract the entry weight')
             if not any(ev_is(ctx, e, 'unlink', 'ao') for e in p.events):
                 probs.append('admitted path does not unlink the access-order node')
             if not any(ev_is(ctx, e, 'unlink', 'wo') for e in p.events):
@@ -543,7 +605,9 @@ def rule_flow_sync(ctx):
     for nid, b in prog.bodies.items():
         if not nid.startswith(SYNC_INNER + '::') or b.kind == 'closure':
             continue
-        if any('EvictionCounters' in l['ty']['s'] for l in b.locals[1:b.argc + 1]) and any('ValueEntry' in l['ty']['s'] and not l['ty']['s'].startswith('&') for l in b.locals[1:b.argc + 1]):
+        takes_entry = any('ValueEntry' in l['ty']['s'] and not l['ty']['s'].startswith('&') for l in b.locals[1:b.argc + 1])
+        gives_back = b.locals[0]['ty']['s'] in ('std::option::Option<u32>', 'u32')     # the released weight is returned, the caller books it
+        if takes_entry and (any('EvictionCounters' in l['ty']['s'] for l in b.locals[1:b.argc + 1]) or gives_back):
             from .roles import upsert_role
             ur = upsert_role(ctx)
             if ur and ur['nid'] == nid:
@@ -887,34 +951,40 @@ def rule_flow_sync(ctx):
     # AUTH-counter-writers / MUST-publish
     maint = sorted(R.maintenance)
     for f in ('entry_count', 'weighted_size'):
-        ws_ = ctx.eff.who_has(('write', SYNC_INNER, f))
-        for w in ws_:
-            ok = w in R.maintenance or w.endswith('Inner::new')
-            r.instance(counter='Inner.' + f, writer=w, allowed=ok)
+        # the published counter: the AtomicCell<u64> of that name in the cache state, or in a crate-local struct the state holds (a `Usage` type)
+        locs = [(an, f) for an, a_ in prog.adts.items() if an.startswith('sync::') for v_ in a_['variants'] for f_ in v_['fields']
+                if f_['name'] == f and 'AtomicCell' in f_['ty']['s']]
+        if not locs:
+            raise CheckFailure('FLOW-counters(sync): the published counter `%s` (an AtomicCell field of the cache state) was not found' % f)
+        ws_ = set()
+        for an, _f in locs:
+            ws_ |= set(ctx.eff.who_has(('write', an, f)))
+        cl_ = prog.callers()
+        for w in sorted(ws_):
+            # the maintenance run itself, a constructor, or a helper that only the maintenance run calls (`Usage::publish`)
+            only_maint = bool(cl_.get(w)) and all(c_ in R.maintenance for c_ in cl_.get(w, ()))
+            ok = w in R.maintenance or w.endswith(('::new', '::default')) or only_maint
+            r.instance(counter=f, writer=w, allowed=ok)
             if not ok:
                 r.violate(w, 'counter-writer', f, 'Inner.%s is written outside the maintenance run' % f, where=ctx.where(w))
         for m in maint:
             bm = prog.bodies[m]
             pdom, nodes = bm.postdominators()
-            stores = []
-            for bi, t in bm.calls():
-                _, ext, _ = prog.call_targets(bm, t)
-                if ext and ext.endswith('AtomicCell::store'):
-                    from .kernel import op_local
-                    l = op_local(t['args'][0])
-                    if any(rg[:3] == ('field', SYNC_INNER, f) for rg in ctx.eff.points[m].get(l, ())):
-                        stores.append(bi)
+            from .kernel import op_local
+
+            def _touch(kind_, t_):
+                # the call stores / loads the counter itself, or is a call of a helper that does
+                tg_, ext_, _ = prog.call_targets(bm, t_)
+                if ext_ and ext_.endswith('AtomicCell::' + ('store' if kind_ == 'write' else 'load')):
+                    l_ = op_local(t_['args'][0])
+                    return any(rg[0] == 'field' and (rg[1], rg[2]) in locs for rg in ctx.eff.points[m].get(l_, ()))
+                return any(any((kind_, an, f) in ctx.eff.transitive(x) for an, _f in locs) for x in tg_)
+            stores = [bi for bi, t in bm.calls() if _touch('write', t)]
             ok = any(s in pdom.get(0, set()) for s in stores)
             # the snapshot the run starts from is loaded while the maintenance lock is held
             dom_ = bm.dominators()
             locks = [bi for bi, t in bm.calls() if prog.call_targets(bm, t)[1] in ('std::sync::Mutex::lock',)]
-            loads = []
-            for bi, t in bm.calls():
-                _, ext, _ = prog.call_targets(bm, t)
-                if ext and ext.endswith('AtomicCell::load'):
-                    l = op_local(t['args'][0])
-                    if any(rg[:3] == ('field', SYNC_INNER, f) for rg in ctx.eff.points[m].get(l, ())):
-                        loads.append(bi)
+            loads = [bi for bi, t in bm.calls() if _touch('read', t) and not _touch('write', t)]
             under = bool(locks) and all(any(lk in dom_.get(ld, ()) and lk != ld for lk in locks) for ld in loads)
             r.instance(function=m, snapshot=f, loaded_under_maintenance_lock=under)
             if loads and not under:
